@@ -98,7 +98,7 @@ template <class G> struct Subject {
         m.directed = directed;
         m.n = n0;
     }
-    void gone(const Edge &k, int how) {
+    void gone(Edge k, int how) {
         if (m.e.erase(k)) {
             ghosts[k] = how;
             ++removals;
